@@ -51,6 +51,12 @@ class P(Prop):
                     x += rng.uniform(0.1, 2.0)
                     ks.append([C.bits(x), C.bits(rng.uniform(-5, 5))])
                 out.append(dict(op=op, knots=ks, meta={"class": "%s/%d knots" % (op, nk)}))
+        H = 1e308
+        for ks in ([(-H, -H), (H, H), (1.5 * H, 0.0)], [(-H, H), (0.0, -H), (H, H)], [(-1.7e308, 1.0), (-1.0, 2.0), (1.7e308, -1.7e308)],
+                   [(0.0, 0.0), (1.0, H), (2.0, -H), (3.0, H)]):
+            kk = [[C.bits(a), C.bits(b)] for a, b in ks]
+            out.append(dict(op="spline", knots=kk, meta={"class": "spline/huge"}))
+            out.append(dict(op="linear", knots=kk, meta={"class": "linear/huge"}))
         for ty in ("Poly0",):
             out.append(dict(op="pw_eval", ty=ty, segs=[], xs=[0], meta={"class": "empty"}))
             out.append(dict(op="evaluator", ty=ty, segs=[], xs=[0], meta={"class": "empty"}))
